@@ -110,7 +110,7 @@ def readme(all_ids):
 Each directory holds `patch.diff` (applies to /repo HEAD), `demo.py` (fails with the change, passes without) and `meta.json`.
 All were written by sub-agents that saw only the text of one property and a scratch worktree (ids -1, -2: round 1; -3..-5: round 2 and -6..-8:
 round 3, where the agents were asked for changes that are hard to notice and were told which changes were already known;
--9..-11: round 4, -12..-14: round 5 and -15..-17: round 6, realistic regressions of the kind refactoring, modernising, performance
+-9..-11: round 4, -12..-14: round 5, -15..-17: round 6 and -18..-19: round 7, realistic regressions of the kind refactoring, modernising, performance
 work and data updates produce).  Each was confirmed with
 `harness/mutant.py confirm` (42 tests pass with the change; the demonstration fails with it and passes on the clean tree) and run against
 the property's check with `harness/mutant.py run` (scratch worktree via `PT_REPO`, /repo itself untouched).  `harness/seeded.py rerun`
